@@ -415,6 +415,9 @@ func cmpOp(op string, a, b *Term) *Term {
 			return tFalse
 		}
 	}
+	if op == "bvule" && a.IsConst() && a.Val.Sign() == 0 {
+		return tTrue
+	}
 	if op == "bvule" && b.IsConst() {
 		lim := new(big.Int).Lsh(big.NewInt(1), uint(a.ub))
 		lim.Sub(lim, big.NewInt(1))
